@@ -10,6 +10,7 @@ import (
 	"bytes"
 	"errors"
 	"fmt"
+	"google.golang.org/protobuf/reflect/protoreflect"
 	"os"
 	"os/exec"
 	"reflect"
@@ -225,6 +226,11 @@ func racePass(r *ev.Run) {
 	}
 	r.Set("race_pass", res)
 }
+
+// v2NoReset is a Google V2 message (ProtoReflect only) that has no Reset method.
+type v2NoReset struct{ inner *timestamppb.Timestamp }
+
+func (w *v2NoReset) ProtoReflect() protoreflect.Message { return w.inner.ProtoReflect() }
 
 // textStub implements encoding.TextMarshaler only.
 type textStub struct {
@@ -448,6 +454,19 @@ func main() {
 	r.Set("equal_same_pointer_and_copy_pairs", selfPairs)
 	r.Set("subjects", len(subs))
 	r.Set("equal_pairs", len(reps)*len(reps))
+	// Reset: a Google V2 message WITHOUT a Reset method of its own is reset through the runtime; an unsupported value
+	// makes Reset panic (documented)
+	{
+		w := &v2NoReset{&timestamppb.Timestamp{Seconds: 7, Nanos: 9}}
+		p := guard(func() { csproto.Reset(w) })
+		evals++
+		if p != "" || w.inner.Seconds != 0 || w.inner.Nanos != 0 {
+			r.Fail("C11/Reset/google-v2-message-without-Reset-method", "v2NoReset", map[string]any{"panic": p, "after": fmt.Sprint(w.inner)})
+		}
+		if p := guard(func() { csproto.Reset(42) }); p == "" {
+			r.Fail("C11/Reset/unsupported-value-does-not-panic", "int", nil)
+		}
+	}
 	// a value that renders itself (encoding.TextMarshaler): its own text and its own error come back unchanged
 	for _, ts := range []*textStub{{text: "self: rendered"}, {text: ""}, {err: errors.New("cannot render")}} {
 		var txt string
